@@ -39,10 +39,147 @@ type ctorSite struct {
 
 var ctorSitesMemo []*ctorSite
 
+// errWrapper: a function of the module that does nothing with an error but build and return it - every
+// path returns, as its error result, the fresh value of a library constructor (or of another such
+// wrapper). Its call sites are construction sites like the constructors' own: a refactoring that routes
+// every rejection through one helper keeps as many obligations as before, and a caller that builds an
+// error through the helper and drops it is still seen.
+type errWrapper struct {
+	ctor      string // the library constructor the value comes from
+	code      string // constant code, "" when the code is a parameter
+	codeParam int    // index of the parameter (receiver not counted) that carries the code, -1 if constant
+}
+
+var errWrappersMemo map[*ssa.Function]*errWrapper
+
+func isErrorLike(t types.Type) bool {
+	if t == nil {
+		return false
+	}
+	if types.Identical(t, types.Universe.Lookup("error").Type()) {
+		return true
+	}
+	return types.Implements(t, types.Universe.Lookup("error").Type().Underlying().(*types.Interface))
+}
+
+// ssaCallee: the called function with an instantiated generic resolved to its origin.
+func ssaCallee(cc *ssa.CallCommon) *ssa.Function {
+	f := cc.StaticCallee()
+	if f != nil && f.Origin() != nil {
+		return f.Origin()
+	}
+	return f
+}
+
+// codeOfCall: the code a constructor or wrapper call is given - a constant, a parameter of the
+// enclosing function (index, receiver not counted) or neither.
+func (c *Ctx) codeOfCall(call *ssa.Call, w map[*ssa.Function]*errWrapper) (ctor, code string, param int, ok bool) {
+	args := callArgs(call.Common())
+	idx := -1
+	if f := calleeObj(call.Common()); c.isErrorCtor(f) {
+		ctor, idx = f.Name(), 1
+	} else if ew := w[ssaCallee(call.Common())]; ew != nil {
+		ctor = ew.ctor
+		if ew.codeParam < 0 {
+			return ctor, ew.code, -1, true
+		}
+		idx = ew.codeParam
+	} else {
+		return "", "", -1, false
+	}
+	if idx >= len(args) {
+		return ctor, "<non-constant>", -1, true
+	}
+	if s, isConst := constString(args[idx]); isConst {
+		return ctor, s, -1, true
+	}
+	if p, isParam := args[idx].(*ssa.Parameter); isParam {
+		fn := call.Parent()
+		off := 0
+		if fn.Signature.Recv() != nil {
+			off = 1
+		}
+		for i, q := range fn.Params {
+			if q == p && i >= off {
+				return ctor, "", i - off, true
+			}
+		}
+	}
+	return ctor, "<non-constant>", -1, true
+}
+
+func (c *Ctx) errorWrappers() map[*ssa.Function]*errWrapper {
+	if errWrappersMemo != nil {
+		return errWrappersMemo
+	}
+	w := map[*ssa.Function]*errWrapper{}
+	for changed := true; changed; {
+		changed = false
+		for _, fn := range c.AllLibFuncs() {
+			if w[fn] != nil || fn.Signature.Results().Len() != 1 || !isErrorLike(fn.Signature.Results().At(0).Type()) {
+				continue
+			}
+			if o, ok := fn.Object().(*types.Func); ok && c.isErrorCtor(o) {
+				continue
+			}
+			var found *errWrapper
+			all := true
+			for _, ret := range returnsOf(fn) {
+				seen := map[ssa.Value]bool{}
+				var roots func(v ssa.Value) bool
+				roots = func(v ssa.Value) bool {
+					if seen[v] {
+						return true
+					}
+					seen[v] = true
+					switch x := v.(type) {
+					case *ssa.MakeInterface:
+						return roots(x.X)
+					case *ssa.ChangeInterface:
+						return roots(x.X)
+					case *ssa.ChangeType:
+						return roots(x.X)
+					case *ssa.Phi:
+						for _, e := range x.Edges {
+							if !roots(e) {
+								return false
+							}
+						}
+						return true
+					case *ssa.Call:
+						ctor, code, param, ok := c.codeOfCall(x, w)
+						if !ok || code == "<non-constant>" {
+							return false
+						}
+						ew := &errWrapper{ctor: ctor, code: code, codeParam: param}
+						if found != nil && (found.ctor != ew.ctor || found.codeParam != ew.codeParam || found.codeParam < 0 && found.code != ew.code) {
+							return false
+						}
+						found = ew
+						return true
+					}
+					return false
+				}
+				if len(ret.Results) != 1 || !roots(ret.Results[0]) {
+					all = false
+					break
+				}
+			}
+			if all && found != nil {
+				w[fn] = found
+				changed = true
+			}
+		}
+	}
+	errWrappersMemo = w
+	return w
+}
+
 func (c *Ctx) errorCtorSites() []*ctorSite {
 	if ctorSitesMemo != nil {
 		return ctorSitesMemo
 	}
+	wrappers := c.errorWrappers()
 	var out []*ctorSite
 	for _, fn := range c.AllLibFuncs() {
 		for _, ci := range allCalls(fn) {
@@ -50,15 +187,15 @@ func (c *Ctx) errorCtorSites() []*ctorSite {
 			if !ok {
 				continue
 			}
-			f := calleeObj(call.Common())
-			if !c.isErrorCtor(f) {
+			ctor, code, param, ok := c.codeOfCall(call, wrappers)
+			if !ok {
 				continue
 			}
-			s := &ctorSite{fn: fn, call: call, ctor: f.Name()}
-			args := callArgs(call.Common())
-			if len(args) >= 2 {
-				if code, ok := constString(args[1]); ok {
-					s.code = code
+			s := &ctorSite{fn: fn, call: call, ctor: ctor, code: code}
+			if param >= 0 {
+				// inside a wrapper: the code is whatever the wrapper's callers pass (their sites carry it)
+				if wrappers[fn] != nil {
+					s.code = "<parameter>"
 				} else {
 					s.code = "<non-constant>"
 				}
@@ -173,7 +310,9 @@ func ruleGramErrCode(c *Ctx) []*Obligation {
 		base := c.FuncKey(s.fn) + "#" + s.ctor + "(" + s.code + ")"
 		cnt[base]++
 		key := c.ctorKey(s, cnt[base])
-		if s.code == "" || s.code == "<non-constant>" {
+		if s.code == "<parameter>" {
+			o.triv(key, c.Pos(s.call.Pos()), "code is the wrapper's parameter: checked at the wrapper's call sites")
+		} else if s.code == "" || s.code == "<non-constant>" {
 			o.bad(key, c.Pos(s.call.Pos()), "error constructed with an empty or non-constant code: callers cannot tell what was rejected")
 		} else {
 			o.triv(key, c.Pos(s.call.Pos()), "code "+s.code)
